@@ -319,6 +319,11 @@ impl<'a, 'c> WorldGen<'a, 'c> {
                 let n = if depth == 0 && leaf_items && self.c.bool(8) {
                     self.labels.insert("w:long-list");
                     200 + self.c.choose(500)
+                } else if depth == 0 && !leaf_items && !item.is_list() && self.c.bool(3) {
+                    // rarely a long list of objects (the position cap is lifted for it)
+                    self.labels.insert("w:long-object-list");
+                    self.max_positions += 4000;
+                    250 + self.c.choose(60)
                 } else if depth >= 3 {
                     self.c.small(1)
                 } else {
